@@ -78,6 +78,31 @@ func TestExplore(t *testing.T) {
 	for _, v := range Variants(tier) {
 		sys := NewSys(v, true, true)
 		evs := sys.Events()
+		// directed: our side spends identifiers on other packets (Code-Reject of an unknown code, Echo-Reply is not one)
+		// between its Configure-Request and the peer's answer; an Ack that names the NEXT identifier acknowledges nothing.
+		// (The tables identify states up to identifier offsets, so these offsets are only reached in chains.)
+		o := func(ops ...string) []core.Event {
+			var es []core.Event
+			for _, x := range ops {
+				es = append(es, core.Event{"op": x})
+			}
+			return es
+		}
+		for c, seqv := range [][]core.Event{
+			o("Up", "Open", "Unknown", "RCA-next", "RCR+", "RCA", "RCR+"),
+			o("Up", "Open", "RCR+", "Unknown", "RCA-next", "TO", "RCA"),
+			o("Up", "Open", "Unknown", "Unknown", "RCA-next", "RCR+", "RCA-stale", "RCR+"),
+			o("Up", "Open", "RCA", "RCR+", "RCR+", "Unknown", "RCA-next", "RCR+", "RCA"),
+		} {
+			tab, pr := core.Chain(sys, fmt.Sprintf("%s#ids%d", v.Name, c), seqv, false)
+			if pr != nil {
+				st.Panics = append(st.Panics, *pr)
+				continue
+			}
+			bundle.Systems = append(bundle.Systems, tab)
+			st.Chains++
+			st.ChainEvents += len(seqv)
+		}
 		for c := 0; c < nchains; c++ {
 			var seqv []core.Event
 			for i := 0; i < chainLen; i++ {
